@@ -210,3 +210,74 @@ Proof.
   - vm_compute. reflexivity.
   - reflexivity.
 Qed.
+
+(* ------------------------------------------------------------------ splits, checked finitely *)
+Local Close Scope string_scope.
+
+(** "f and env together show c", checked at the candidate paths *)
+Definition split_of_b (c f : list (key * cfg)) (tenv : list (path * string)) : bool :=
+  forallb (fun p => node_eqb (njoin (view p (Map f)) (env_view tenv p)) (view p (Map c)))
+          (all_paths (Map c) ++ all_paths (Map f) ++ flat_map (fun e => prefixes (fst e)) tenv).
+
+Lemma node_eqb_eq a b : node_eqb a b = true -> a = b.
+Proof.
+  destruct a, b; simpl; try discriminate; try reflexivity.
+  - intro H. apply String.eqb_eq in H. congruence.
+  - intro H. apply Nat.eqb_eq in H. congruence.
+Qed.
+
+Lemma env_view_all_none tenv p : (forall e, In e tenv -> contrib p e = NNone) -> env_view tenv p = NNone.
+Proof.
+  induction tenv as [|e r IH]; intro H; simpl; [reflexivity|].
+  rewrite (H e (or_introl eq_refl)), njoin_none_r. apply IH. intros e' He'. apply H. right; assumption.
+Qed.
+
+Lemma split_of_b_sound c f tenv : split_of_b c f tenv = true -> split_of c f tenv.
+Proof.
+  unfold split_of_b, split_of. intros H p. rewrite forallb_forall in H.
+  destruct (all_none_or_some (contrib p) tenv) as [T | (e & He & Hn)].
+  - rewrite (env_view_all_none tenv p T), njoin_none_r.
+    destruct (view p (Map f)) eqn:Ef.
+    + destruct (view p (Map c)) eqn:Ec; [reflexivity | | |];
+        (assert (Hin : In p (all_paths (Map c))) by (apply view_in_all_paths; congruence);
+         specialize (H p (in_or_app _ _ _ (or_introl Hin))); apply node_eqb_eq in H;
+         rewrite (env_view_all_none tenv p T), njoin_none_r, Ef, Ec in H; exact H).
+    + assert (Hin : In p (all_paths (Map f))) by (apply view_in_all_paths; congruence).
+      specialize (H p (in_or_app _ _ _ (or_intror (in_or_app _ _ _ (or_introl Hin))))). apply node_eqb_eq in H.
+      rewrite (env_view_all_none tenv p T), njoin_none_r, Ef in H. exact H.
+    + assert (Hin : In p (all_paths (Map f))) by (apply view_in_all_paths; congruence).
+      specialize (H p (in_or_app _ _ _ (or_intror (in_or_app _ _ _ (or_introl Hin))))). apply node_eqb_eq in H.
+      rewrite (env_view_all_none tenv p T), njoin_none_r, Ef in H. exact H.
+    + assert (Hin : In p (all_paths (Map f))) by (apply view_in_all_paths; congruence).
+      specialize (H p (in_or_app _ _ _ (or_intror (in_or_app _ _ _ (or_introl Hin))))). apply node_eqb_eq in H.
+      rewrite (env_view_all_none tenv p T), njoin_none_r, Ef in H. exact H.
+  - apply node_eqb_eq. apply H. apply in_or_app. right. apply in_or_app. right.
+    apply in_flat_map. exists e. split; [assumption | apply contrib_in_prefixes; assumption].
+Qed.
+
+Local Open Scope string_scope.
+
+(** a configuration with a map, a list of maps and a nested list; one split of
+    its leaves: a list element's key, a nested-list element and a map leaf go to
+    the environment, the rest (with holes) stays in the file *)
+Definition ex_c : list (key * cfg) :=
+  [(K "m", Map [(K "a", Leaf "1"); (K "n_k", Leaf "2")]);
+   (K "l", Lst [Map [(K "id", Leaf "x"); (K "type", Leaf "t")]; Map [(K "id", Leaf "y")]]);
+   (K "g", Lst [Lst [Leaf "p"; Leaf "q"]])].
+Definition ex_cf : list (key * cfg) :=
+  [(K "m", Map [(K "a", Leaf "1")]);
+   (K "l", Lst [Map [(K "type", Leaf "t")]; Map [(K "id", Leaf "y")]]);
+   (K "g", Lst [Lst [Leaf "p"]])].
+Definition ex_cenv : list (string * string) :=
+  [("P_L_0_ID", "x"); ("P_G_0_1", "q"); ("P_M_N__K", "2")].
+
+Example split_example :
+  exists tenv,
+    domain (fun s => Leaf s) "P_" [] ex_cf ex_cenv tenv /\ domain (fun s => Leaf s) "P_" [] ex_c [] [] /\
+    split_of ex_c ex_cf tenv.
+Proof.
+  eexists. splits.
+  - unfold domain. splits; [vm_compute; reflexivity | apply in_scope_b_sound; vm_compute; reflexivity | vm_compute; reflexivity ..].
+  - unfold domain. splits; [vm_compute; reflexivity | apply in_scope_b_sound; vm_compute; reflexivity | vm_compute; reflexivity ..].
+  - apply split_of_b_sound. vm_compute. reflexivity.
+Qed.
